@@ -8,6 +8,7 @@ import traceback
 sys.path.insert(0, os.path.dirname(os.path.abspath(__file__)))
 from common import SPEC, ToolError, build_harness, log, sany, seed_tier  # noqa: E402
 
+CODEC_PROPS = {"C09", "C18"}
 CLIENT_PROPS = {"C05", "C06", "C07", "C10", "C11", "C12", "C15", "C17"}
 
 
@@ -42,6 +43,9 @@ def main(argv):
     if cmd in CLIENT_PROPS:
         import client
         return client.run(cmd, tier, seed, replay)
+    if cmd in CODEC_PROPS:
+        import codec
+        return codec.run(cmd, tier, seed, replay)
     print("unknown property / command", cmd)
     return 2
 
